@@ -121,6 +121,9 @@ func covOrder(c coverage.Table) ([]glyph.ID, bool) {
 }
 
 func showSub(st gtab.Subtable) string {
+	if out, ok := showCtxSub(st); ok {
+		return out
+	}
 	switch l := st.(type) {
 	case *gtab.Gsub1_1:
 		return "a:" + gidsStr(l.Cov.Glyphs(), ".") + ":" + strconv.Itoa(int(l.Delta))
@@ -350,6 +353,9 @@ func covOf(gl []glyph.ID) coverage.Table {
 
 func readSub(s string) gtab.Subtable {
 	kind, body := s[:1], s[2:]
+	if st := readCtxSub(kind, body); st != nil {
+		return st
+	}
 	switch kind {
 	case "a":
 		i := strings.IndexByte(body, ':')
@@ -493,6 +499,9 @@ var dslErrClasses = []string{
 	"unterminated string", "unexpected", "expected integer", "invalid integer", "int16 out of range",
 	"expected glyph pair", "expected glyph, got", "duplicate class", "font has no cmap",
 	"mark glyphs not given in ascending order", "base glyphs not given in ascending order", "missing mark class", "uint16 out of range",
+	"duplicate input class", "duplicate backtrack class", "duplicate lookahead class", "overlapping classes", "overlapping input classes",
+	"overlapping backtrack classes", "overlapping lookahead classes", "undefined class", "no input classes given", "empty class",
+	"expected class name", "invalid lookup index", "invalid lookup position",
 }
 
 func dslErrClass(msg string) string {
@@ -1051,6 +1060,22 @@ var dslGposSnippets = []string{
 	"GPOS3: \"AB\": 1,2 to 3,4", "GPOS3: C: 1,2 to 3,4;\n\nGSUB1: A->B", "GPOS3: C: +1,-2 to 3,", "GPOS3:\n\t3: 1,2 to 3,4; ||\n\tA: 1,1 to 1,1",
 }
 
+var dslCtxSnippets = []string{
+	"GSUB5:\n\t\"AAA\" -> 1@0 2@1 1@0, \"AAB\" -> 1@0 1@1 2@0 ||\n\tclass :alpha: = [A-K]\n\tclass :digits: = [L-Z]\n\t/A B C/ :alpha: :digits: -> 2@1, :alpha: :: :digits: -> 2@2 ||\n\t[A B C] [A C] [A D] -> 3@0",
+	"GSUB6:\n\tA B | C D | E F -> 1@0 2@1, B | C D E | F -> 1@2 ||\n\tinputclass :ABC: = [\"ABC\"]\n\tbacktrackclass :DEF: = [\"DEF\"]\n\tlookaheadclass :DEF: = [\"DEF\"]\n\t/A B C/ :DEF: :: | :ABC: | :: :DEF: -> 1@0 ||\n\t[A] [A B C] | [A B] [A C] [B C] | [A B C] [A B C] -> 1@0 1@1 1@2",
+	"GPOS7:[A] [B] -> 0@0", "GPOS8: A | B C | D -> 1@0 || [A] | [B] | [C] -> 0@0",
+	"GSUB5: A B -> 1@0, A -> , C A -> 2@1 3@0\nGSUB1: A -> B", "GSUB5: -marks class :x: = [A B] class :y: = [C]\n /A C/ :x: :y: -> 1@0, :: -> , :y: :: :x: ->",
+	"GSUB5: class :x: = [A] class :x: = [B] /A/ :x: -> 1@0", "GSUB5: class :x: = [A B] class :y: = [B] /A/ :x: -> 1@0", "GSUB5: /A/ :z: -> 1@0",
+	"GSUB5: class :x: = [] /A/ :x: ->", "GSUB5: /A/ -> 1@0", "GSUB5: -> 1@0", "GSUB5: A -> 70000@0", "GSUB5: A -> 1@", "GSUB5: A -> 1@70000", "GSUB5: A -> 1 0",
+	"GSUB5: [A B] [] [C] -> 1@2 || A -> 1@0", "GSUB5: [A] [B", "GSUB5: /A B/ :x -> 1@0", "GSUB5: /A B/ :1: -> 1@0", "GSUB5: class A", "GSUB5: class :x: [A] /A/ :x: :x: -> 0@1",
+	"GSUB6: | A | -> 1@0, B | A C | D E -> ", "GSUB6: | [A] | -> 1@0", "GSUB6: [A] [B] | [C] | [D] -> 1@0 || | A | B -> 2@0", "GSUB6: A | | B -> 1@0", "GSUB6: | [A] [B] -> 1@0",
+	"GSUB6: inputclass :i: = [A] backtrackclass :b: = [B] lookaheadclass :l: = [C]\n/A/ :b: :: | :i: :: | :l: -> 1@0, | :: | -> ",
+	"GSUB6: inputclass :i: = [A] inputclass :i: = [B] /A/ | :i: | -> 1@0", "GSUB6: backtrackclass :b: = [A B] backtrackclass :c: = [B] /A/ | :: | ->",
+	"GSUB6: lookaheadclass :l: = [A] lookaheadclass :l: = [C] /A/ | :: | ->", "GSUB6: /A/ :b: | :: | -> 1@0", "GSUB6: /A/ | :: | :l: -> 1@0", "GSUB6: /A/ | | -> 1@0",
+	"GSUB6: inputclass :i: = [A] || /A/ | :i: | -> 1@0 || /A/ | :i: | -> 1@0", "GPOS8: | | -> 1@0", "GPOS7: class :c1: = [A]\n\t/A/ :c1: -> 1@0 ||\n\t class :c1: = [B]\n\t/B/ :c1: :: -> ",
+	"GSUB6: |", "GSUB6: | /", "GSUB6: | [", "GSUB5: class", "GSUB5: /", "GPOS7: A B", "GSUB6: A | B", "GSUB6: A | B | C", "GSUB5: [A] -> 1@0 1", "GSUB5: A -> 1@0 || ", "GSUB5: A -> 1@0 ||\n\n B -> 2@0",
+}
+
 var simpleFont = dslFont{n: 30, names: append([]string{".notdef", "space", "x"}, strings.Split("A B C D E F G H I J K L M N O P Q R S T U V W X Y Z", " ")...)[:29:29],
 	cmap: func() [][2]int {
 		var m [][2]int
@@ -1117,7 +1142,7 @@ func areaDsl(c *Ctx) {
 				d.cmap, d.noCmap = nil, true
 			}
 			var t string
-			pool := append(append([]string{}, dslSnippets...), dslGposSnippets...)
+			pool := append(append(append([]string{}, dslSnippets...), dslGposSnippets...), dslCtxSnippets...)
 			switch r.Intn(3) {
 			case 0:
 				t = Pick(r, pool)
@@ -1129,11 +1154,8 @@ func areaDsl(c *Ctx) {
 				t = mutate(r, Pick(r, pool))
 				c.Stat("parse.text", "mutated")
 			default:
-				t = Pick(r, []string{"GSUB1", "GSUB2", "GSUB3", "GSUB4", "GPOS1", "GPOS2", "GPOS3", "GPOS4"}) + ": " + randText(r)
+				t = Pick(r, []string{"GSUB1", "GSUB2", "GSUB3", "GSUB4", "GPOS1", "GPOS2", "GPOS3", "GPOS4", "GSUB5", "GSUB6", "GPOS7", "GPOS8"}) + ": " + randText(r)
 				c.Stat("parse.text", "fragments")
-			}
-			if hasOtherForm(t) {
-				continue
 			}
 			out := c.Case(Verdict, "dsl.parse", d.args()+" text="+hx([]byte(t)), true)
 			if strings.HasPrefix(out, "ok:") {
@@ -1155,7 +1177,9 @@ func areaDsl(c *Ctx) {
 				tab = "gpos"
 			}
 			for k := r.Range(1, 3); k > 0; k-- {
-				if tab == "gpos" {
+				if d.n >= 6 && r.Chance(2, 5) {
+					ll = append(ll, genCtxLookup(c, d.n, tab == "gpos"))
+				} else if tab == "gpos" {
 					ll = append(ll, genGposLookup(c, d.n))
 				} else {
 					ll = append(ll, genLookup(c, d.n))
